@@ -44,6 +44,9 @@ pub struct World {
   pub text: String,
   pub ops: Vec<Op>,
   pub faulting: bool,
+  /// API flavour of this history: patterns are handed to the library as text, not as compiled objects
+  #[serde(default)]
+  pub by_str: bool,
 }
 
 // ---------------------------------------------------------------------------------------
@@ -139,10 +142,13 @@ impl Sut {
         .map(|_| ()),
     }
   }
-  fn replace(&mut self, p: &Pattern<SupportLang>, fix: &str) -> Result<bool, TSParseError> {
-    match self {
-      Sut::Plain(a) => a.replace(p, fix),
-      Sut::Faulty(a, _, _) => a.replace(p, fix),
+  /// `by_str`: the pattern is handed over as text (the library compiles it), not as a Pattern object
+  fn replace(&mut self, p: &Pattern<SupportLang>, text: &str, by_str: bool, fix: &str) -> Result<bool, TSParseError> {
+    match (self, by_str) {
+      (Sut::Plain(a), false) => a.replace(p, fix),
+      (Sut::Faulty(a, _, _), false) => a.replace(p, fix),
+      (Sut::Plain(a), true) => a.replace(text, fix),
+      (Sut::Faulty(a, _, _), true) => a.replace(text, fix),
     }
   }
   fn replace_kind(&mut self, kind: &str, lang: SupportLang, fix: &str) -> Result<bool, TSParseError> {
@@ -152,10 +158,12 @@ impl Sut {
       Sut::Faulty(a, _, _) => a.replace(m, fix),
     }
   }
-  fn find_ranges(&self, p: &Pattern<SupportLang>) -> Vec<(usize, usize)> {
-    match self {
-      Sut::Plain(a) => a.root().find_all(p).map(|m| (m.range().start, m.range().end)).collect(),
-      Sut::Faulty(a, _, _) => a.root().find_all(p).map(|m| (m.range().start, m.range().end)).collect(),
+  fn find_ranges(&self, p: &Pattern<SupportLang>, text: &str, by_str: bool) -> Vec<(usize, usize)> {
+    match (self, by_str) {
+      (Sut::Plain(a), false) => a.root().find_all(p).map(|m| (m.range().start, m.range().end)).collect(),
+      (Sut::Faulty(a, _, _), false) => a.root().find_all(p).map(|m| (m.range().start, m.range().end)).collect(),
+      (Sut::Plain(a), true) => a.root().find_all(text).map(|m| (m.range().start, m.range().end)).collect(),
+      (Sut::Faulty(a, _, _), true) => a.root().find_all(text).map(|m| (m.range().start, m.range().end)).collect(),
     }
   }
   fn arm_fault(&self) {
@@ -325,7 +333,9 @@ pub fn execute(w: &mut World, mut gen: Option<(&mut Rng, usize)>) -> Exec {
   let mut ex = Exec::default();
   let lang = SupportLang::from_str(&w.lang).expect("language");
   let c = corpus::corpus(&w.lang);
-  let probes: Vec<Pattern<SupportLang>> = c.probes.iter().filter_map(|p| Pattern::try_new(p, lang).ok()).collect();
+  let probes: Vec<(Pattern<SupportLang>, &str)> = c.probes.iter().filter_map(|p| Pattern::try_new(p, lang).ok().map(|x| (x, *p))).collect();
+  // API flavour of this history: patterns handed over as text or as compiled objects
+  let by_str = w.by_str;
   let mut model = w.text.clone();
   let mut sut = Sut::new(&model, lang, w.faulting);
   let mut raw = RawTrack::new(lang, &model);
@@ -385,7 +395,7 @@ pub fn execute(w: &mut World, mut gen: Option<(&mut Rng, usize)>) -> Exec {
         let fresh = AstGrep::new(&model, lang);
         let Some(e) = fresh.root().replace(&p, fix.as_str()) else {
           // no match on the model: the document must agree
-          let r = match std::panic::catch_unwind(std::panic::AssertUnwindSafe(|| sut.replace(&p, fix))) {
+          let r = match std::panic::catch_unwind(std::panic::AssertUnwindSafe(|| sut.replace(&p, pattern, by_str, fix))) {
             Ok(r) => r,
             Err(pm) => {
               ex.violation = Some(("PANIC".into(), format!("step {i}: the library panicked in replace({pattern:?}): {}", crate::driver::panic_msg(&pm))));
@@ -417,6 +427,41 @@ pub fn execute(w: &mut World, mut gen: Option<(&mut Rng, usize)>) -> Exec {
               format!("step {i}: replace({pattern:?}, {fix:?}) writes {:?}; the template with its variables filled in is {:?} (compared without blanks, and by line count)", truncate(&ins, 80), truncate(&want, 80)),
             ));
             return ex;
+          }
+        }
+        if let Some(want) = model_replacement(&fresh, &p, fix, e.position) {
+          ex.count("probe:replacement_text_compared_with_indentation_model");
+          if want != ins {
+            ex.violation = Some((
+              "REPLACEMENT-INDENT".into(),
+              format!("step {i}: replace({pattern:?}, {fix:?}) writes {:?}; the reference model of the template (variables moved to the indentation of their template line, the whole to that of the matched line) gives {:?}", truncate(&ins, 120), truncate(&want, 120)),
+            ));
+            return ex;
+          }
+        }
+        // the replaced span, against the pattern with its variables filled in: what the pattern does
+        // not spell out (apart from punctuation the matcher may skip) must stay in the document
+        if let Some(spelled) = expand_template(&fresh, &p, pattern, e.position, usize::MAX) {
+          let squeeze = |t: &str| t.chars().filter(|c| !c.is_whitespace()).collect::<Vec<char>>();
+          let (want, got) = (squeeze(&spelled), squeeze(&model[e.position..e.position + e.deleted_length]));
+          let mut j = 0;
+          let mut extra = String::new();
+          for c in &got {
+            if j < want.len() && *c == want[j] {
+              j += 1;
+            } else {
+              extra.push(*c);
+            }
+          }
+          if j == want.len() {
+            ex.count("probe:replaced_span_compared_with_pattern_model");
+            if extra.chars().any(|c| c.is_alphanumeric()) {
+              ex.violation = Some((
+                "REPLACED-SPAN".into(),
+                format!("step {i}: replace({pattern:?}, ..) deletes {:?}, the pattern with its variables filled in is only {:?}", truncate(&model[e.position..e.position + e.deleted_length], 80), truncate(&spelled, 80)),
+              ));
+              return ex;
+            }
           }
         }
         (e.position, e.deleted_length, ins, "replace")
@@ -452,7 +497,7 @@ pub fn execute(w: &mut World, mut gen: Option<(&mut Rng, usize)>) -> Exec {
       Op::Splice { .. } => sut.edit(pos, del, &ins).map(|_| true),
       Op::Replace { pattern, fix } => {
         let p = Pattern::try_new(pattern, lang).unwrap();
-        sut.replace(&p, fix)
+        sut.replace(&p, pattern, by_str, fix)
       }
       Op::ReplaceRoot { fix } => {
         let kind = AstGrep::new(&old_model_for_kind, lang).root().kind().to_string();
@@ -580,8 +625,9 @@ pub fn execute(w: &mut World, mut gen: Option<(&mut Rng, usize)>) -> Exec {
       }
       // later searches see what a fresh parse would see
       let fresh_ag = AstGrep::new(&model, lang);
-      for p in &probes {
-        let a = match std::panic::catch_unwind(std::panic::AssertUnwindSafe(|| sut.find_ranges(p))) {
+      for (pi, (p, ptext)) in probes.iter().enumerate() {
+        // (a pattern given as text is compiled once per visited node: one such search per step)
+        let a = match std::panic::catch_unwind(std::panic::AssertUnwindSafe(|| sut.find_ranges(p, ptext, by_str && pi == 0))) {
           Ok(a) => a,
           Err(pm) => {
             ex.violation = Some(("PANIC".into(), format!("step {i}: find_all on the edited document panicked: {}", crate::driver::panic_msg(&pm))));
@@ -614,11 +660,100 @@ fn bystander(lang: &str, text: &str) -> usize {
   let Ok(l) = SupportLang::from_str(lang) else { return 0 };
   let other = AstGrep::new(text, l);
   let mut n = other.root().dfs().count().min(1);
+  // searched with patterns given as text; several languages share pattern texts such as `$A + $B`
+  for p in corpus::corpus(lang).rewrites.iter().map(|x| &x.0).take(2) {
+    if Pattern::try_new(p, l).is_ok() {
+      n += other.root().find_all(*p).count().min(1);
+    }
+  }
   let docs = other.inner.get_injections(|s| SupportLang::from_str(s).ok());
   for d in &docs {
     n += d.root().dfs().count().min(1);
   }
   n
+}
+
+/// Indentation as the replacer sees it: the blanks right after the start of the line that holds
+/// the offset (within the last 512 bytes; a first line counts only if it is reached).
+fn model_indent_at(prefix: &str) -> usize {
+  let b = prefix.as_bytes();
+  let look = b.len().max(512) - 512;
+  let mut n = 0usize;
+  for c in b[look..].iter().rev() {
+    match *c {
+      b'\n' => return n,
+      b' ' => n += 1,
+      _ => n = 0,
+    }
+  }
+  if look == 0 {
+    n
+  } else {
+    0
+  }
+}
+
+/// A multi-line text moved from indentation `from` to indentation `to`.
+fn model_reindent(text: &str, from: usize, to: usize) -> String {
+  use std::cmp::Ordering::*;
+  match from.cmp(&to) {
+    Equal => text.to_string(),
+    Greater => {
+      let pad = " ".repeat(from - to);
+      text.split('\n').map(|l| l.strip_prefix(pad.as_str()).unwrap_or(l)).collect::<Vec<_>>().join("\n")
+    }
+    Less => {
+      let pad = " ".repeat(to - from);
+      let mut it = text.split('\n');
+      let mut out = it.next().unwrap_or("").to_string();
+      for l in it {
+        out.push('\n');
+        out.push_str(&pad);
+        out.push_str(l);
+      }
+      out
+    }
+  }
+}
+
+/// Reference model of a template replacement, indentation included (single `$VAR`s only): every
+/// variable's text is moved from the indentation of the line it starts on to the indentation of
+/// its line in the template, and the whole is moved to the indentation of the matched line.
+fn model_replacement(fresh: &AstGrep<StrDoc<SupportLang>>, p: &Pattern<SupportLang>, fix: &str, pos: usize) -> Option<String> {
+  if fix.contains("$$") {
+    return None;
+  }
+  let nm = fresh.root().find(p)?;
+  if nm.range().start != pos {
+    return None;
+  }
+  let src = fresh.source();
+  let env = nm.get_env();
+  let mut out = String::new();
+  let fb = fix.as_bytes();
+  let mut i = 0;
+  while i < fb.len() {
+    if fb[i] == b'$' && i + 1 < fb.len() && (fb[i + 1].is_ascii_uppercase() || fb[i + 1] == b'_') {
+      let mut j = i + 1;
+      while j < fb.len() && (fb[j].is_ascii_uppercase() || fb[j].is_ascii_digit() || fb[j] == b'_') {
+        j += 1;
+      }
+      let node = env.get_match(&fix[i + 1..j])?;
+      let r = node.range();
+      let text = &src[r.clone()];
+      if text.contains('\n') {
+        out.push_str(&model_reindent(text, model_indent_at(&src[..r.start]), model_indent_at(&fix[..i])));
+      } else {
+        out.push_str(text);
+      }
+      i = j;
+    } else {
+      let ch = fix[i..].chars().next().unwrap();
+      out.push(ch);
+      i += ch.len_utf8();
+    }
+  }
+  Some(model_reindent(&out, 0, model_indent_at(&src[..pos])))
 }
 
 /// The fix template with every `$VAR` replaced by the text the variable matched on a fresh parse;
@@ -629,7 +764,8 @@ fn expand_template(fresh: &AstGrep<StrDoc<SupportLang>>, p: &Pattern<SupportLang
   }
   let nm = fresh.root().find(p)?;
   let r = nm.range();
-  if r.start != pos || r.end - r.start != del {
+  // (`del == usize::MAX`: only the start has to agree)
+  if r.start != pos || (del != usize::MAX && r.end - r.start != del) {
     return None;
   }
   let env = nm.get_env();
@@ -849,6 +985,7 @@ fn gen_world(seed: u64) -> (World, Rng, usize) {
       text,
       ops: vec![],
       faulting,
+      by_str: Rng::stream(seed, "api").chance(0.3),
     },
     wr,
     nops,
@@ -897,6 +1034,7 @@ impl Simulation for EditSim {
       r.add(k, *v);
     }
     r.count(if w.faulting { "policy:fault-injecting" } else { "policy:fault-free" });
+    r.count(if w.by_str { "policy:patterns-as-text" } else { "policy:patterns-as-objects" });
     r.add("probe:clean_state_compared", ex.clean_checks);
     if let Some((class, detail)) = ex.violation {
       // minimise: drop ops, then shrink the initial text by lines, then simplify inserted texts
@@ -914,7 +1052,7 @@ impl Simulation for EditSim {
       let kept = shrink::ddmin(&lines, |ls| {
         let removed_prefix = 0usize;
         let _ = removed_prefix;
-        let w2 = World { lang: lang.clone(), text: ls.concat(), ops: ops_fixed.clone(), faulting };
+        let w2 = World { lang: lang.clone(), text: ls.concat(), ops: ops_fixed.clone(), faulting, by_str: best.by_str };
         class_of(&w2) == Some(cls.clone())
       });
       best.text = kept.concat();
@@ -966,5 +1104,5 @@ impl Simulation for EditSim {
 }
 
 fn best_with(w: &World, ops: &[Op]) -> World {
-  World { lang: w.lang.clone(), text: w.text.clone(), ops: ops.to_vec(), faulting: w.faulting }
+  World { lang: w.lang.clone(), text: w.text.clone(), ops: ops.to_vec(), faulting: w.faulting, by_str: w.by_str }
 }
